@@ -1,7 +1,13 @@
-(** iavl/v2 orphan bookkeeping, part 2: completeness of the orphan rows and exactness of the
-    tree pruner (no garbage branch row survives a prune).  Continues V2OrphansFacts.v. *)
+(** iavl/v2 orphan bookkeeping, part 2: completeness of the orphan rows, and the tree pruner's
+    garbage: [saveBranches] writes the orphan rows only when the checkpointed root is a branch
+    ([isCheckpoint() = len(tree.branches) > 0]) while [SaveVersion] clears [tree.branchOrphans]
+    at every checkpoint, so a checkpoint of an empty or single-leaf tree LOSES the pending
+    orphans: "no garbage branch row survives a prune" is refuted ([prune_exact_refuted]) and
+    proved for the histories where no checkpoint loses orphans ([prune_exact_partial]).
+    Continues V2OrphansFacts.v. *)
 From Coq Require Import Permutation Lia ZArith List Bool.
-From IAVL Require Import Bytes Varint Tree MTree V2 V2Facts Sha256 V2Orphans V2OrphansFacts.
+From IAVL Require Import Bytes Varint Tree MTree V2 V2Facts Sha256.
+From IAVL Require Import V2Orphans V2OrphansFacts.
 Import ListNotations.
 Local Open Scope Z_scope.
 
@@ -43,9 +49,10 @@ Proof.
 Qed.
 
 (** * The second invariant: every branch row is accounted for *)
-Record Inv2 (lo : Z) (s : ostate) (tr : list (Z * option node)) : Prop := {
+Record Inv2 (full : bool) (lo : Z) (s : ostate) (tr : list (Z * option node)) : Prop := {
   j_lo : (lo = -1 \/ In lo (ckpts (os_store s))) /\ -1 <= lo <= ck_of s;
-  j_rows : forall key row, In (key, row) (branches (os_store s)) ->
+  (* only when no checkpoint has lost pending orphans ([full = true]) *)
+  j_rows : full = true -> forall key row, In (key, row) (branches (os_store s)) ->
              In key (okeys (os_root s)) \/ In key (os_pending s) \/ exists a, In (key, a) (borphans (os_store s));
   j_orph : forall x a, In (x, a) (borphans (os_store s)) ->
              lo < a /\ exists v T, In (v, T) tr /\ v < a /\ In x (okeys T) /\
@@ -59,11 +66,11 @@ Record Inv2 (lo : Z) (s : ostate) (tr : list (Z * option node)) : Prop := {
                  forall v T, In (v, T) tr -> fst x <= v -> v < a -> In x (okeys T)
 }.
 
-Lemma inv2_tree_step lo s tr r' lseq' bs' os :
-  Inv lo s tr -> Inv2 lo s tr ->
+Lemma inv2_tree_step full lo s tr r' lseq' bs' os :
+  Inv lo s tr -> Inv2 full lo s tr ->
   (forall x, In x os <-> In x (opkeys (ck_of s) (os_root s)) /\ ~ In x (okeys r')) ->
   (forall x, In x (okeys r') -> In x (okeys (os_root s)) \/ fst x = os_version s + 1) ->
-  Inv2 lo (OState r' (os_version s) lseq' bs' (os_pending s ++ os) (os_store s)) tr.
+  Inv2 full lo (OState r' (os_version s) lseq' bs' (os_pending s ++ os) (os_store s)) tr.
 Proof.
   intros I J OS KS. pose proof (ck_lt _ _ _ I) as CK.
   assert (forall x, In x (okeys (os_root s)) -> fst x <= ck_of s -> In x (opkeys (ck_of s) (os_root s))) as PK.
@@ -71,25 +78,25 @@ Proof.
     apply ikeys_pkeys; auto. intros u Iu. apply (i_unh _ _ _ I). rewrite ER. exact Iu. }
   constructor; cbn [os_version os_store os_root os_bseq os_pending]; unfold ck_of; cbn [os_store]; fold (ck_of s).
   - apply J.
-  - intros key row Ir. destruct (j_rows _ _ _ J key row Ir) as [A|[A|A]]; [|right; left; apply in_or_app; auto|auto].
+  - intros F key row Ir. destruct (j_rows _ _ _ _ J F key row Ir) as [A|[A|A]]; [|right; left; apply in_or_app; auto|auto].
     destruct (in_dec key_dec key (okeys r')) as [B|B]; [auto|]. right. left. apply in_or_app. right.
     apply OS. split; [|assumption]. apply PK; [assumption|]. apply (i_rows _ _ _ I key row Ir).
   - apply J.
-  - intros x Ix. apply in_app_or in Ix. destruct Ix as [Ix|Ix]; [apply (j_pend _ _ _ J x Ix)|].
-    apply OS in Ix. destruct Ix as (A & _). apply (j_live _ _ _ J).
+  - intros x Ix. apply in_app_or in Ix. destruct Ix as [Ix|Ix]; [apply (j_pend _ _ _ _ J x Ix)|].
+    apply OS in Ix. destruct Ix as (A & _). apply (j_live _ _ _ _ J).
     + destruct (os_root s); [apply (pkeys_incl _ _ _ A)|destruct A].
     + destruct (os_root s); [apply (pkeys_ver _ _ _ A)|destruct A].
-  - intros x Ix Lx. destruct (KS x Ix) as [A|A]; [apply (j_live _ _ _ J x A Lx)|lia].
-  - intros x Ix v T It Lv. destruct (KS x Ix) as [A|A]; [apply (j_live_all _ _ _ J x A v T It Lv)|].
+  - intros x Ix Lx. destruct (KS x Ix) as [A|A]; [apply (j_live _ _ _ _ J x A Lx)|lia].
+  - intros x Ix v T It Lv. destruct (KS x Ix) as [A|A]; [apply (j_live_all _ _ _ _ J x A v T It Lv)|].
     destruct (i_trace _ _ _ I _ _ It) as (B & _). lia.
-  - intros x Ix. apply in_app_or in Ix. destruct Ix as [Ix|Ix]; [apply (j_pend_all _ _ _ J x Ix)|].
-    apply OS in Ix. destruct Ix as (A & _). apply (j_live_all _ _ _ J).
+  - intros x Ix. apply in_app_or in Ix. destruct Ix as [Ix|Ix]; [apply (j_pend_all _ _ _ _ J x Ix)|].
+    apply OS in Ix. destruct Ix as (A & _). apply (j_live_all _ _ _ _ J).
     destruct (os_root s); [apply (pkeys_incl _ _ _ A)|destruct A].
   - apply J.
 Qed.
 
-Lemma os_apply_inv2 lo s tr o s' :
-  Inv lo s tr -> Inv2 lo s tr -> os_apply false s o = Some s' -> Inv2 lo s' tr.
+Lemma os_apply_inv2 full lo s tr o s' :
+  Inv lo s tr -> Inv2 full lo s tr -> os_apply false s o = Some s' -> Inv2 full lo s' tr.
 Proof.
   intros I J. unfold os_apply. destruct o as [k v|k].
   - destruct (os_root s) as [t|] eqn:ER.
@@ -122,8 +129,8 @@ Proof.
       * auto.
 Qed.
 
-Lemma os_apply_all_inv2 lo tr ops : forall s s',
-  Inv lo s tr -> Inv2 lo s tr -> os_apply_all false s ops = Some s' -> Inv2 lo s' tr.
+Lemma os_apply_all_inv2 full lo tr ops : forall s s',
+  Inv lo s tr -> Inv2 full lo s tr -> os_apply_all false s ops = Some s' -> Inv2 full lo s' tr.
 Proof.
   induction ops as [|o ops IH]; intros s s' I J; cbn [os_apply_all].
   - intros E; inversion E; subst; exact J.
@@ -131,53 +138,83 @@ Proof.
     apply IH; [eapply os_apply_inv; eauto|eapply os_apply_inv2; eauto].
 Qed.
 
+(** the SaveVersion of [s] loses no pending orphan: it is not a checkpoint, or nothing is
+    pending, or the root is a branch ([saveBranches] runs) *)
+Definition save_ok (interval : Z) (s : ostate) : bool :=
+  if v2_should_checkpoint interval false (ckpts (os_store s)) (os_version s + 1)
+  then match os_pending s with [] => true | _ :: _ => root_is_branch (os_root s) end
+  else true.
+
+Definition step_ok (interval : Z) (s : ostate) (e : hstep) : bool :=
+  match e with
+  | HVersion ops =>
+      match os_apply_all false s ops with
+      | Some s1 => save_ok interval s1
+      | None => true
+      end
+  | HPrune _ => true
+  end.
+
 Section Save2.
   Variable H : bytes -> bytes.
   Hypothesis Hnn : forall x, H x <> [].
 
-  Lemma os_save_inv2 lo s tr interval :
-    Inv lo s tr -> Inv2 lo s tr ->
-    Inv2 lo (os_save H false interval s) (tr ++ save_trace H interval s).
+  Lemma root_is_branch_hash r : root_is_branch (hash_root H r) = root_is_branch r.
   Proof.
-    intros I J. pose proof (ck_lt _ _ _ I) as CK. pose proof (i_ver _ _ _ I) as V0.
+    destruct r as [[k v m|k h s m l r]|]; [| |reflexivity];
+      cbn [hash_root v2_deep_hash root_is_branch]; destruct (hs m); reflexivity.
+  Qed.
+
+  Lemma os_save_inv2 full lo s tr interval :
+    Inv lo s tr -> Inv2 full lo s tr -> (full = true -> save_ok interval s = true) ->
+    Inv2 full lo (os_save H false interval s) (tr ++ save_trace H interval s).
+  Proof.
+    intros I J NL. pose proof (ck_lt _ _ _ I) as CK. pose proof (i_ver _ _ _ I) as V0.
     unfold os_save, save_trace. fold (hash_root H (os_root s)).
+    unfold save_ok in NL.
     destruct (v2_should_checkpoint interval false (ckpts (os_store s)) (os_version s + 1)) eqn:SC.
-    - set (v := os_version s + 1) in *. set (T := hash_root H (os_root s)) in *.
+    - assert (full = true -> forall k, In k (os_pending s) -> root_is_branch (hash_root H (os_root s)) = true) as RB.
+      { intros F k Ik. rewrite root_is_branch_hash. specialize (NL F). destruct (os_pending s); [destruct Ik|exact NL]. }
+      clear NL.
+      set (v := os_version s + 1) in *. set (T := hash_root H (os_root s)) in *.
       assert (okeys T = okeys (os_root s)) as OK by apply okeys_hash_root.
       constructor; cbn [os_version os_store os_root os_bseq os_pending]; unfold ck_of;
         cbn [os_store checkpoint_write_at ckpts branches borphans roots]; rewrite ?ckpt_last_snoc.
-      + destruct (j_lo _ _ _ J) as ([A|A] & B); (split; [|subst v; lia]); [auto|right; apply in_or_app; auto].
-      + intros key row Ir. apply in_app_or in Ir. destruct Ir as [Ir|Ir].
-        * destruct (j_rows _ _ _ J key row Ir) as [A|[A|(a & A)]].
+      + destruct (j_lo _ _ _ _ J) as ([A|A] & B); (split; [|subst v; lia]); [auto|right; apply in_or_app; auto].
+      + intros F key row Ir. apply in_app_or in Ir. destruct Ir as [Ir|Ir].
+        * destruct (j_rows _ _ _ _ J F key row Ir) as [A|[A|(a & A)]].
           -- left. rewrite OK. exact A.
-          -- right. right. exists v. apply in_or_app. right. apply in_map_iff. exists key. auto.
+          -- right. right. exists v. apply in_or_app. right. rewrite (RB F key A).
+             apply in_map_iff. exists key. auto.
           -- right. right. exists a. apply in_or_app. auto.
         * left. destruct T as [t|]; [|destruct Ir]. apply new_rows_keys in Ir. apply Ir.
       + intros x a Ix. apply in_app_or in Ix. destruct Ix as [Ix|Ix].
-        * destruct (j_orph _ _ _ J x a Ix) as (A & v0 & T0 & B & C & D & E). split; [assumption|].
+        * destruct (j_orph _ _ _ _ J x a Ix) as (A & v0 & T0 & B & C & D & E). split; [assumption|].
           exists v0, T0. split; [apply in_or_app; auto|]. split; [assumption|]. split; [assumption|].
           intros c Ic Lc. apply in_app_or in Ic. destruct Ic as [Ic|[<-|[]]]; [auto|].
           destruct (i_orph _ _ _ I x a Ix) as (_ & _ & Ia & _).
           pose proof (i_ckle _ _ _ I) as F. rewrite Forall_forall in F. specialize (F a Ia). subst v. lia.
-        * apply in_map_iff in Ix. destruct Ix as (x0 & E & Ix). inversion E; subst x0 a. clear E.
-          destruct (j_lo _ _ _ J) as (_ & B). split; [subst v; lia|].
-          destruct (j_pend _ _ _ J x Ix) as (T0 & A & A').
+        * destruct (root_is_branch T); [|destruct Ix].
+          apply in_map_iff in Ix. destruct Ix as (x0 & E & Ix). inversion E; subst x0 a. clear E.
+          destruct (j_lo _ _ _ _ J) as (_ & B). split; [subst v; lia|].
+          destruct (j_pend _ _ _ _ J x Ix) as (T0 & A & A').
           exists (ck_of s), T0. split; [apply in_or_app; auto|]. split; [subst v; lia|]. split; [assumption|].
           intros c Ic Lc. apply in_app_or in Ic. destruct Ic as [Ic|[<-|[]]]; [|lia].
           apply ckpt_last_max; [apply I|assumption].
       + intros x [].
       + intros x Ix _. exists T. split; [apply in_or_app; right; left; reflexivity|assumption].
       + intros x Ix v' T' It Lv. rewrite OK in Ix. apply in_app_or in It. destruct It as [It|[It|[]]].
-        * apply (j_live_all _ _ _ J x Ix v' T' It Lv).
+        * apply (j_live_all _ _ _ _ J x Ix v' T' It Lv).
         * inversion It; subst v' T'. rewrite OK. exact Ix.
       + intros x [].
       + intros x a Ix v' T' It Lv La. apply in_app_or in Ix. destruct Ix as [Ix|Ix].
-        * apply in_app_or in It. destruct It as [It|[It|[]]]; [apply (j_orph_all _ _ _ J x a Ix v' T' It Lv La)|].
+        * apply in_app_or in It. destruct It as [It|[It|[]]]; [apply (j_orph_all _ _ _ _ J x a Ix v' T' It Lv La)|].
           inversion It; subst v' T'. exfalso.
           destruct (i_orph _ _ _ I x a Ix) as (_ & _ & Ia & _).
           pose proof (i_ckle _ _ _ I) as F. rewrite Forall_forall in F. specialize (F a Ia). subst v. lia.
-        * apply in_map_iff in Ix. destruct Ix as (x0 & E & Ix). inversion E; subst x0 a. clear E.
-          apply in_app_or in It. destruct It as [It|[It|[]]]; [apply (j_pend_all _ _ _ J x Ix v' T' It Lv)|].
+        * destruct (root_is_branch T); [|destruct Ix].
+          apply in_map_iff in Ix. destruct Ix as (x0 & E & Ix). inversion E; subst x0 a. clear E.
+          apply in_app_or in It. destruct It as [It|[It|[]]]; [apply (j_pend_all _ _ _ _ J x Ix v' T' It Lv)|].
           inversion It; subst v' T'. lia.
     - rewrite app_nil_r.
       constructor; cbn [os_version os_store os_root os_bseq os_pending]; unfold ck_of;
@@ -196,31 +233,31 @@ Proof.
   - destruct P as (c' & E' & (A & B & _)). rewrite E in E'. inversion E'; subst c'. auto.
 Qed.
 
-Lemma prune_inv2 lo s tr n c st' :
-  Inv lo s tr -> Inv2 lo s tr ->
+Lemma prune_inv2 full lo s tr n c st' :
+  Inv lo s tr -> Inv2 full lo s tr ->
   prune_tree (os_store s) n = Some st' -> find_previous (ckpts (os_store s)) n = FPVal c ->
-  Inv2 (Z.max lo c) (OState (os_root s) (os_version s) (os_lseq s) (os_bseq s) (os_pending s) st') tr.
+  Inv2 full (Z.max lo c) (OState (os_root s) (os_version s) (os_lseq s) (os_bseq s) (os_pending s) st') tr.
 Proof.
   intros I J P FP. unfold prune_tree, prune_tree_with in P. rewrite FP in P. inversion P; subst st'; clear P.
   pose proof (fp_cases _ _ _ (i_sorted _ _ _ I) FP) as FC.
   constructor; cbn [os_version os_store os_root os_bseq os_pending]; unfold ck_of;
     cbn [os_store ckpts branches borphans roots]; fold (ck_of s); try (apply J; fail).
-  - destruct (j_lo _ _ _ J) as (A & B).
+  - destruct (j_lo _ _ _ _ J) as (A & B).
     assert (c <= ck_of s) as Lc.
     { destruct FC as [->|(Ic & _)]; [lia|]. apply ckpt_last_max; [apply I|assumption]. }
     split; [|lia]. destruct (Z.max_spec lo c) as [(_ & ->)|(_ & ->)]; [|assumption].
     destruct FC as [->|(Ic & _)]; auto.
-  - intros key row Ir. apply filter_In in Ir. destruct Ir as (Ir & D).
-    destruct (j_rows _ _ _ J key row Ir) as [A|[A|(a & A)]]; auto.
+  - intros F key row Ir. apply filter_In in Ir. destruct Ir as (Ir & D).
+    destruct (j_rows _ _ _ _ J F key row Ir) as [A|[A|(a & A)]]; auto.
     right. right. exists a. apply filter_In. split; [assumption|]. cbn [snd fst] in *.
     destruct (a <=? n) eqn:C; [|reflexivity]. exfalso.
     rewrite (in_keys_dead_conv key a n _ A) in D by lia. discriminate.
   - intros x a Ix. apply filter_In in Ix. destruct Ix as (Ix & D). cbn [snd] in D.
-    destruct (j_orph _ _ _ J x a Ix) as (A & R). split; [|exact R].
+    destruct (j_orph _ _ _ _ J x a Ix) as (A & R). split; [|exact R].
     destruct (i_orph _ _ _ I x a Ix) as (_ & _ & Ia & _).
     pose proof (i_ckle _ _ _ I) as F. rewrite Forall_forall in F. specialize (F a Ia).
     destruct (a <=? n) eqn:C; [discriminate|]. destruct FC as [->|(_ & Lc)]; lia.
-  - intros x a Ix. apply filter_In in Ix. apply (j_orph_all _ _ _ J x a (proj1 Ix)).
+  - intros x a Ix. apply filter_In in Ix. apply (j_orph_all _ _ _ _ J x a (proj1 Ix)).
 Qed.
 
 Section Runs2.
@@ -228,16 +265,29 @@ Section Runs2.
   Hypothesis Hnn : forall x, H x <> [].
   Variable interval : Z.
 
-  Lemma os_step_inv2 lo s tr e s' :
-    Inv lo s tr -> Inv2 lo s tr -> os_step H false false interval s e = Some s' ->
-    Inv2 (step_floor s e lo) s' (tr ++ step_trace s' e).
+  (** no checkpoint of the run loses pending orphans (executable) *)
+  Fixpoint no_loss (s : ostate) (hist : list hstep) : bool :=
+    match hist with
+    | [] => true
+    | e :: rest =>
+        step_ok interval s e &&
+        match os_step H false false interval s e with
+        | Some s' => no_loss s' rest
+        | None => true
+        end
+    end.
+
+  Lemma os_step_inv2 full lo s tr e s' :
+    Inv lo s tr -> Inv2 full lo s tr -> (full = true -> step_ok interval s e = true) ->
+    os_step H false false interval s e = Some s' ->
+    Inv2 full (step_floor s e lo) s' (tr ++ step_trace s' e).
   Proof.
-    intros I J. destruct e as [ops|n]; cbn [os_step step_floor step_trace].
+    intros I J NL. destruct e as [ops|n]; cbn [os_step step_floor step_trace step_ok] in *.
     - destruct (os_apply_all false s ops) as [s1|] eqn:EA; [|discriminate].
       intros E; inversion E; subst s'; clear E.
       pose proof (os_apply_all_inv _ _ _ _ _ I EA) as I1.
-      pose proof (os_apply_all_inv2 _ _ _ _ _ I J EA) as J1.
-      pose proof (os_save_inv2 H lo s1 tr interval I1 J1) as J2.
+      pose proof (os_apply_all_inv2 _ _ _ _ _ _ I J EA) as J1.
+      pose proof (os_save_inv2 H full lo s1 tr interval I1 J1 NL) as J2.
       replace (if existsb _ _ then _ else _) with (save_trace H interval s1); [exact J2|].
       unfold save_trace, os_save. fold (hash_root H (os_root s1)).
       destruct (v2_should_checkpoint interval false (ckpts (os_store s1)) (os_version s1 + 1)) eqn:SC;
@@ -253,22 +303,23 @@ Section Runs2.
       rewrite FP. eapply prune_inv2; eauto.
   Qed.
 
-  Theorem run_inv2 hist : forall s lo past s' tr,
-    Inv lo s past -> Inv2 lo s past ->
+  Theorem run_inv2 full hist : forall s lo past s' tr,
+    Inv lo s past -> Inv2 full lo s past -> (full = true -> no_loss s hist = true) ->
     os_run H false false interval s hist = Some s' ->
     os_trace H false false interval s hist = Some tr ->
-    Inv2 (run_floor H interval s hist lo) s' (past ++ tr).
+    Inv2 full (run_floor H interval s hist lo) s' (past ++ tr).
   Proof.
-    induction hist as [|e rest IH]; intros s lo past s' tr I J R T.
+    induction hist as [|e rest IH]; intros s lo past s' tr I J NL R T.
     - cbn in R, T. inversion R; inversion T; subst. rewrite app_nil_r. exact J.
     - apply os_trace_step in T. destruct T as (s1 & tr1 & E1 & T1 & ->).
-      cbn [os_run run_floor] in *. rewrite E1 in *. rewrite app_assoc.
-      apply (IH s1); [| |assumption|assumption].
+      cbn [os_run run_floor no_loss] in *. rewrite E1 in *. rewrite app_assoc.
+      apply (IH s1); [| | |assumption|assumption].
       + apply (os_step_inv H Hnn interval); assumption.
-      + apply os_step_inv2; assumption.
+      + apply os_step_inv2; try assumption. intros F. specialize (NL F). apply andb_true_iff in NL. apply NL.
+      + intros F. specialize (NL F). apply andb_true_iff in NL. apply NL.
   Qed.
 
-  Lemma inv2_empty : Inv2 (-1) ostate_empty [].
+  Lemma inv2_empty full : Inv2 full (-1) ostate_empty [].
   Proof.
     constructor; cbn; try (intros; contradiction). split; [auto|lia].
   Qed.
@@ -286,8 +337,8 @@ Section Runs2.
                 forall c, In c (ckpts (os_store s)) -> c < a -> c <= v.
   Proof.
     intros R Tr Ix.
-    pose proof (run_inv2 hist _ _ _ _ _ (inv_empty (-1)) inv2_empty R Tr) as J. cbn [app] in J.
-    apply (j_orph _ _ _ J x a Ix).
+    pose proof (run_inv2 false hist _ _ _ _ _ (inv_empty (-1)) (inv2_empty false) ltac:(discriminate) R Tr) as J. cbn [app] in J.
+    apply (j_orph _ _ _ _ J x a Ix).
   Qed.
 
   (** THEOREM 2 (complete): an orphan row [((ver,seq), at)]: [at] is a checkpoint; the branch is
@@ -305,16 +356,20 @@ Section Runs2.
   Proof.
     intros R Tr Ix.
     pose proof (run_inv H Hnn interval hist _ _ _ _ _ (inv_empty (-1)) R Tr) as I. cbn [app] in I.
-    pose proof (run_inv2 hist _ _ _ _ _ (inv_empty (-1)) inv2_empty R Tr) as J. cbn [app] in J.
+    pose proof (run_inv2 false hist _ _ _ _ _ (inv_empty (-1)) (inv2_empty false) ltac:(discriminate) R Tr) as J. cbn [app] in J.
     destruct (i_orph _ _ _ I x a Ix) as (_ & _ & Ia & D).
-    split; [assumption|]. split; [apply (j_orph_all _ _ _ J x a Ix)|]. split; [assumption|].
-    apply (j_orph _ _ _ J x a Ix).
+    split; [assumption|]. split; [apply (j_orph_all _ _ _ _ J x a Ix)|]. split; [assumption|].
+    apply (j_orph _ _ _ _ J x a Ix).
   Qed.
 
-  (** THEOREM 4: the pruner is exact.  After any history and [prune_tree st n] with
+  (** THEOREM 4 (partial; the unconditional statement [prune_exact] is FALSE, see
+      [prune_exact_refuted] below): the pruner is exact on the histories where no checkpoint
+      loses pending orphans ([no_loss]: every checkpoint with a non-empty [tree.branchOrphans]
+      has a branch root).  After such a history and [prune_tree st n] with
       [c = FindPrevious(n)], every branch row left is a node of the tree of some checkpoint
       that is retained ([>= c] and [>=] every earlier prune bound): no garbage survives. *)
-  Theorem prune_exact hist s tr n c st' key row :
+  Theorem prune_exact_partial hist s tr n c st' key row :
+    no_loss ostate_empty hist = true ->
     os_run H false false interval ostate_empty hist = Some s ->
     os_trace H false false interval ostate_empty hist = Some tr ->
     prune_tree (os_store s) n = Some st' ->
@@ -322,21 +377,21 @@ Section Runs2.
     In (key, row) (branches st') ->
     exists v T, In (v, T) tr /\ Z.max (run_floor H interval ostate_empty hist (-1)) c <= v /\ In key (okeys T).
   Proof.
-    intros R Tr P FP Ir.
+    intros NL R Tr P FP Ir.
     pose proof (run_inv H Hnn interval hist _ _ _ _ _ (inv_empty (-1)) R Tr) as I. cbn [app] in I.
-    pose proof (run_inv2 hist _ _ _ _ _ (inv_empty (-1)) inv2_empty R Tr) as J. cbn [app] in J.
+    pose proof (run_inv2 true hist _ _ _ _ _ (inv_empty (-1)) (inv2_empty true) (fun _ => NL) R Tr) as J. cbn [app] in J.
     set (lo := run_floor H interval ostate_empty hist (-1)) in *.
-    pose proof (prune_inv _ _ _ _ _ _ I P FP) as I'. pose proof (prune_inv2 _ _ _ _ _ _ I J P FP) as J'.
-    destruct (j_lo _ _ _ J') as (A & B). unfold ck_of in B. cbn [os_store] in B.
+    pose proof (prune_inv _ _ _ _ _ _ I P FP) as I'. pose proof (prune_inv2 _ _ _ _ _ _ _ I J P FP) as J'.
+    destruct (j_lo _ _ _ _ J') as (A & B). unfold ck_of in B. cbn [os_store] in B.
     assert (ckpts st' = ckpts (os_store s)) as CE.
     { unfold prune_tree, prune_tree_with in P. rewrite FP in P. inversion P; reflexivity. }
-    destruct (j_rows _ _ _ J' key row Ir) as [K|[K|(a & K)]]; cbn [os_root os_pending os_store] in K.
+    destruct (j_rows _ _ _ _ J' eq_refl key row Ir) as [K|[K|(a & K)]]; cbn [os_root os_pending os_store] in K.
     - pose proof (i_rows _ _ _ I' key row Ir) as L.
-      destruct (j_live _ _ _ J' key K L) as (T & T1 & T2). eexists _, T. split; [exact T1|]. split; [|exact T2].
+      destruct (j_live _ _ _ _ J' key K L) as (T & T1 & T2). eexists _, T. split; [exact T1|]. split; [|exact T2].
       unfold ck_of. cbn [os_store]. lia.
-    - destruct (j_pend _ _ _ J' key K) as (T & T1 & T2). eexists _, T. split; [exact T1|]. split; [|exact T2].
+    - destruct (j_pend _ _ _ _ J' key K) as (T & T1 & T2). eexists _, T. split; [exact T1|]. split; [|exact T2].
       unfold ck_of. cbn [os_store]. lia.
-    - destruct (j_orph _ _ _ J' key a K) as (La & v & T & T1 & T2 & T3 & T4). exists v, T.
+    - destruct (j_orph _ _ _ _ J' key a K) as (La & v & T & T1 & T2 & T3 & T4). exists v, T.
       split; [assumption|]. split; [|assumption]. cbn [os_store] in T4.
       destruct (i_trace _ _ _ I' _ _ T1) as (V0 & _).
       destruct A as [A|A]; [lia|]. apply T4; [exact A|lia].
@@ -345,7 +400,7 @@ End Runs2.
 
 Print Assumptions checkpoint_orphans_reach.
 Print Assumptions checkpoint_orphans_sound.
-Print Assumptions prune_exact.
+Print Assumptions prune_exact_partial.
 
 (** the executable counterpart on the example history of V2OrphansFacts.v: after a third
     prune to 8 (c = 7) every remaining branch row is reached by checkpoint 7 or 9 *)
@@ -359,4 +414,80 @@ Example x_hist_prune_exact_example :
       end
   | _, _ => None
   end = Some (true, true, 16%nat, 12%nat).
+Proof. vm_compute. reflexivity. Qed.
+
+(** * REFUTATION of the unconditional exactness of the pruner *)
+Lemma not_reached_check (tr : list (Z * option node)) m key :
+  existsb (fun p => (m <=? fst p) && in_keys key (okeys (snd p))) tr = false ->
+  ~ exists v T, In (v, T) tr /\ m <= v /\ In key (okeys T).
+Proof.
+  intros E (v & T & IT & L & K).
+  assert (existsb (fun p => (m <=? fst p) && in_keys key (okeys (snd p))) tr = true) as X.
+  { apply existsb_exists. exists (v, T). split; [assumption|]. cbn [fst snd]. apply andb_true_intro. split.
+    - apply Z.leb_le. assumption.
+    - unfold in_keys. apply existsb_exists. exists key. split; [assumption|apply key_eqb_refl]. }
+  rewrite X in E. discriminate.
+Qed.
+
+(** the history found by the differential harness (checkpoint interval 1, keys "ab", "c", "a"):
+    v1 empty; v2 Set ab, Set c; v3 Set c; v4 nothing; v5 Remove ab, Remove c (tree empty: the
+    checkpoint writes no orphan row and drops the pending orphan 3.1); v6 Set a, Set c, Set ab;
+    DeleteVersionsTo 3; v7 Remove c; v8 nothing.  Then DeleteVersionsTo 7. *)
+Definition x_kab : bytes := [97%N; 98%N].
+Definition x_kc : bytes := [99%N].
+Definition x_ka : bytes := [97%N].
+
+Definition x_hist_leak : list hstep :=
+  [ HVersion [];
+    HVersion [LSet x_kab [1%N]; LSet x_kc [2%N]];
+    HVersion [LSet x_kc [3%N]];
+    HVersion [];
+    HVersion [LDel x_kab; LDel x_kc];
+    HVersion [LSet x_ka [4%N]; LSet x_kc [5%N]; LSet x_kab [6%N]];
+    HPrune 3;
+    HVersion [LDel x_kc];
+    HVersion [] ].
+
+(** what the stores hold along the leak history: branch row keys, orphan rows, pending orphans *)
+Definition x_store_summary (hist : list hstep) : option (list nkey2 * list (nkey2 * Z) * list nkey2) :=
+  match os_run sha256 false false 1 ostate_empty hist with
+  | Some s => Some (map fst (branches (os_store s)), borphans (os_store s), os_pending s)
+  | None => None
+  end.
+
+(** after v5 the only orphan row is 2.1@3 (3.1@5 is never written, nothing is pending); after
+    the last deletion the branch row 3.1 is still there - as in the real database *)
+Example x_hist_leak_example :
+  x_store_summary (firstn 5 x_hist_leak) = Some ([(2, 1); (3, 1)], [((2, 1), 3)], []) /\
+  x_store_summary x_hist_leak = Some ([(3, 1); (6, 1); (6, 2)], [((6, 1), 7)], []) /\
+  x_store_summary (x_hist_leak ++ [HPrune 7]) = Some ([(3, 1); (6, 2)], [], []) /\
+  no_loss sha256 1 ostate_empty x_hist_leak = false.
+Proof. repeat split; vm_compute; reflexivity. Qed.
+
+(** REFUTED ([prune_exact], the statement of [prune_exact_partial] without [no_loss]): after the
+    leak history and DeleteVersionsTo 7 (c = 7, earlier prune bound 3) the branch row 3.1 is left
+    although no retained checkpoint (7, 8) reaches it - the last tree holding it is checkpoint
+    4, its orphan row was never written.  A storage leak of the Go code; nothing needed is
+    lost (the safety theorems of V2OrphansFacts.v hold). *)
+Theorem prune_exact_refuted :
+  exists hist s tr n c st' key row,
+    os_run sha256 false false 1 ostate_empty hist = Some s /\
+    os_trace sha256 false false 1 ostate_empty hist = Some tr /\
+    prune_tree (os_store s) n = Some st' /\
+    find_previous (ckpts (os_store s)) n = FPVal c /\
+    In (key, row) (branches st') /\
+    ~ exists v T, In (v, T) tr /\ Z.max (run_floor sha256 1 ostate_empty hist (-1)) c <= v /\ In key (okeys T).
+Proof.
+  exists x_hist_leak. eexists. eexists. exists 7, 7. eexists. exists (3, 1). eexists.
+  split; [vm_compute; reflexivity|]. split; [vm_compute; reflexivity|].
+  split; [vm_compute; reflexivity|]. split; [vm_compute; reflexivity|].
+  split; [left; reflexivity|].
+  apply not_reached_check. vm_compute. reflexivity.
+Qed.
+
+Print Assumptions prune_exact_refuted.
+Print Assumptions x_hist_leak_example.
+
+(** the hypothesis of [prune_exact_partial] holds on the example history of V2OrphansFacts.v *)
+Example x_hist_no_loss : no_loss sha256 2 ostate_empty x_hist = true.
 Proof. vm_compute. reflexivity. Qed.
